@@ -827,3 +827,63 @@ def wl_legacy_sdmx(p):
 
 WORKLOADS["legacy_direct"] = (draw_legacy_params, wl_legacy_direct)
 WORKLOADS["legacy_sdmx"] = (draw_legacy_params, wl_legacy_sdmx)
+
+
+# ---------------------------------------------------------------------------------
+# FFT wrapper (libfft_wrapper) and the FFT drivers of pbc_tools.c.  FFTW itself is a
+# naive-DFT stand-in in the verification builds (csrc/stub_fftw3.h): what runs for real are
+# the wrapper's own parallel loops (write_fft_input / read_fft_output with every layout:
+# complex / real-to-complex, in place / out of place, batch first / last) and run_ffts.
+# ---------------------------------------------------------------------------------
+def draw_fft_params(rng):
+    nd = rng.choice([1, 2, 3, 3])
+    return {
+        "dims": [rng.choice([1, 2, 3, 4, 5, 6, 7, 8, 9]) for _ in range(nd)],
+        "nt": rng.choice([1, 2, 3, 5, 8]),
+        "fwd": bool(rng.chance(0.5)),
+        "r2c": bool(rng.chance(0.5)),
+        "inplace": bool(rng.chance(0.5)),
+        "batch_first": bool(rng.chance(0.5)),
+        "mesh1": [rng.choice([2, 3, 4, 5, 6]) for _ in range(3)],
+        "mesh2": [rng.choice([2, 3, 4, 5, 6, 8]) for _ in range(3)],
+        "nbuf": rng.choice([1, 2, 4]),
+        "nfft": rng.choice([1, 2, 3, 5]),
+        "dseed": rng.below(10**6),
+    }
+
+
+def wl_fft_wrapper(p):
+    from ciderpress.lib.fft_plan import FFTWrapper
+    from ciderpress.pyscf.pbc.util import FFTInterpolator
+
+    r = np.random.default_rng(p["dseed"])
+    out = {}
+    w = FFTWrapper(list(p["dims"]), ntransform=p["nt"], r2c=p["r2c"], fwd=p["fwd"], inplace=p["inplace"], batch_first=p["batch_first"])
+    shape = w.input_shape
+    if p["r2c"] and p["fwd"]:
+        x = r.normal(size=shape)
+    else:
+        x = r.normal(size=shape) + 1j * r.normal(size=shape)
+    y = w.call(np.ascontiguousarray(x))
+    out["fft"] = np.ascontiguousarray(y).view(np.float64) if np.iscomplexobj(y) else y
+    # a second transform with the same plan (buffers are reused)
+    y2 = w.call(np.ascontiguousarray(x[..., ::-1].copy() if x.ndim else x))
+    out["fft_again"] = np.ascontiguousarray(y2).view(np.float64) if np.iscomplexobj(y2) else y2
+    del w
+    # run_ffts + map_between_fft_meshes through the package's interpolator
+    for r2c in (False, True):
+        fi = FFTInterpolator(p["mesh1"], p["mesh2"], r2c=r2c, num_fft_buffer=p["nbuf"])
+        n1 = int(np.prod(p["mesh1"]))
+        if r2c:
+            f = np.ascontiguousarray(r.normal(size=(p["nfft"], n1)))
+        else:
+            f = np.ascontiguousarray(r.normal(size=(p["nfft"], n1)) + 1j * r.normal(size=(p["nfft"], n1)))
+        g = fi.interpolate(f, fwd=True)
+        h = fi.interpolate(np.ascontiguousarray(g), fwd=False)
+        for name, a in (("interp_fwd_r2c%d" % r2c, g), ("interp_bwd_r2c%d" % r2c, h)):
+            a = np.ascontiguousarray(a)
+            out[name] = a.view(np.float64) if np.iscomplexobj(a) else a
+    return out
+
+
+WORKLOADS["fft_wrapper"] = (draw_fft_params, wl_fft_wrapper)
